@@ -11,6 +11,9 @@ def run(rep, tier, seed):
     cfgs = nttcheck.ext_configs(tier, seed)
     res = nttcheck.run_parallel('ext', cfgs)
     nttcheck.record(rep, 'extendPol', res, nttcheck.describe_ext, 'lde-bounded-shape')
+    ntab = nttcheck.check_tables(rep, tier)
+    rep.floor('table checks', ntab, 20)
+    nttcheck.threshold_notes(rep, 'ext')
     rep.floor('configurations', len(res), 300 if tier == 'quick' else 3000)
     nttrules.run_rules(rep, ('compute-r', 'shift-const'))
     rep.sample(dict(kind='extendPol', example=nttcheck.describe_ext(cfgs[len(cfgs) // 2]), configurations=len(cfgs)))
